@@ -68,15 +68,15 @@ Print Assumptions C07_index_page_entry_independent_partial.
    files, options and walk-back budgets.  (The solver reaches the repositories only through get_dist.) *)
 Theorem C07_whole_compile_listing_order_free :
   forall rs rs', stacks_same_up_to_order rs rs' ->
-  forall fuel e inputs cons rc md ob_all ob,
-  perform_compile_stack_ob fuel e rs inputs cons rc md ob_all ob = perform_compile_stack_ob fuel e rs' inputs cons rc md ob_all ob.
+  forall fuel e inputs cons rc md ob_all ob extras,
+  perform_compile_stack_x fuel e rs inputs cons rc md ob_all ob extras = perform_compile_stack_x fuel e rs' inputs cons rc md ob_all ob extras.
 Proof. exact whole_compile_listing_order_free. Qed.
 Print Assumptions C07_whole_compile_listing_order_free.
 
 (* more generally, the compile depends on the repositories only through the answers they give *)
 Theorem C07_compile_depends_on_answers_only :
   forall u u', (forall allow r budget, get_dist_stack_src allow u r budget = get_dist_stack_src allow u' r budget) ->
-  forall fuel e inputs cons rc md ob_all ob,
-  perform_compile_stack_ob fuel e u inputs cons rc md ob_all ob = perform_compile_stack_ob fuel e u' inputs cons rc md ob_all ob.
+  forall fuel e inputs cons rc md ob_all ob extras,
+  perform_compile_stack_x fuel e u inputs cons rc md ob_all ob extras = perform_compile_stack_x fuel e u' inputs cons rc md ob_all ob extras.
 Proof. exact perform_compile_congr. Qed.
 Print Assumptions C07_compile_depends_on_answers_only.
